@@ -480,31 +480,34 @@ func (fv *FnV) writableRefs(st *State, ref string) []string {
 		return nil
 	}
 	for _, ex := range fv.k.Writes {
-		env := fv.contractEnv(fv.entry, fv.entry, nil)
-		v, err := env.eval(ex)
-		if err != nil {
-			env2 := fv.contractEnv(st, fv.entry, nil)
-			if li := fv.innermostLoop(); li != nil {
-				env2.loop = li
-			}
-			v, err = env2.eval(ex)
-			if err != nil {
+		// the object the expression names on entry, and the one it names now (a cell guarded by a mutex, or an
+		// entry of a local map, may have been replaced since entry by an object that is writable for the same reason)
+		var vals []CVal
+		if v, err := fv.contractEnv(fv.entry, fv.entry, nil).eval(ex); err == nil {
+			vals = append(vals, v)
+		}
+		env2 := fv.contractEnv(st, fv.entry, nil)
+		if li := fv.innermostLoop(); li != nil {
+			env2.loop = li
+		}
+		if v, err := env2.eval(ex); err == nil {
+			vals = append(vals, v)
+		}
+		for _, v := range vals {
+			r := v.T
+			switch v.S {
+			case sSlice:
+				r = "(s!ref " + v.T + ")"
+			case sAny:
+				// an interface holding a map or a slice
+				mc := fv.g.ctorFor(types.NewMap(types.Typ[types.String], types.NewInterfaceType(nil, nil)))
+				sc := fv.g.ctorFor(types.NewSlice(types.NewInterfaceType(nil, nil)))
+				out = append(out, and("((_ is "+mc.ctor+") "+v.T+")", eq(ref, "("+mc.sel+" "+v.T+")")))
+				out = append(out, and("((_ is "+sc.ctor+") "+v.T+")", eq(ref, "(s!ref ("+sc.sel+" "+v.T+"))")))
 				continue
 			}
+			out = append(out, eq(ref, r))
 		}
-		r := v.T
-		switch v.S {
-		case sSlice:
-			r = "(s!ref " + v.T + ")"
-		case sAny:
-			// an interface holding a map or a slice
-			mc := fv.g.ctorFor(types.NewMap(types.Typ[types.String], types.NewInterfaceType(nil, nil)))
-			sc := fv.g.ctorFor(types.NewSlice(types.NewInterfaceType(nil, nil)))
-			out = append(out, and("((_ is "+mc.ctor+") "+v.T+")", eq(ref, "("+mc.sel+" "+v.T+")")))
-			out = append(out, and("((_ is "+sc.ctor+") "+v.T+")", eq(ref, "(s!ref ("+sc.sel+" "+v.T+"))")))
-			continue
-		}
-		out = append(out, eq(ref, r))
 	}
 	return out
 }
